@@ -139,7 +139,7 @@ impl Engine for MultiEngine {
         let small = Cfg { n: a.n.min(b.n), cap: a.cap.min(b.cap) };
         let mut hs = case.hist.clone();
         // cfg_of(hs) must give `small`: run the generator on an explicit configuration instead
-        let profiles = [Profile::Forest, Profile::Queries, Profile::Alloc, Profile::GcOrders];
+        let profiles = [Profile::Forest, Profile::Queries, Profile::Alloc, Profile::GcOrders, Profile::Dense];
         let out = run_seeded_cfg(&mut hs, small, &profiles);
         if out.closed.is_some() || out.failure.is_some() {
             return CaseReport { events: vec!["history_closed"], evaluations: 1, ..Default::default() };
@@ -189,7 +189,7 @@ impl Engine for MultiEngine {
         let b = Cfg { n: gen::pick_n(case.n2_sel), cap: gen::pick_cap(case.cap2_sel) };
         let small = Cfg { n: a.n.min(b.n), cap: a.cap.min(b.cap) };
         let mut hs = case.hist.clone();
-        let out = run_seeded_cfg(&mut hs, small, &[Profile::Forest, Profile::Queries, Profile::Alloc, Profile::GcOrders]);
+        let out = run_seeded_cfg(&mut hs, small, &[Profile::Forest, Profile::Queries, Profile::Alloc, Profile::GcOrders, Profile::Dense]);
         let mut s = render_calls(small, &out.calls[..out.gen_calls.min(out.calls.len())]);
         if s.len() > 1200 {
             s = s.chars().take(1200).collect::<String>() + " …";
